@@ -1010,3 +1010,183 @@ func init() {
 		}
 	}
 }
+
+// ---- a result that came with an error is not dereferenced while the error may be set ----
+//
+// nilResultRule: in `v, err := f(…)` where v is an interface, pointer or map, the library's own functions
+// (and every parser the stream is given) return a nil v together with a non-nil error. A method call, field
+// access or index on v therefore panics on every path on which err was not established to be nil: behind
+// `if err != nil { log }` without leaving, or with no test at all. The walk is over the control-flow graph
+// of the function from the assignment on; it stops at a branch edge that establishes err == nil or v != nil
+// and at a reassignment of v. Sending, storing, comparing or passing v on is not a dereference.
+func nilResultRule(w *World, r *Report, rule string, inScope func(fi *FuncInfo) bool) {
+	for _, key := range w.sortedFuncKeys() {
+		fi := w.Funcs[key]
+		if fi.Decl.Body == nil || !inScope(fi) || strings.HasSuffix(w.Fset.Position(fi.Decl.Pos()).Filename, "_test.go") {
+			continue
+		}
+		info := fi.Pkg.TypesInfo
+		bodies := []*ast.BlockStmt{fi.Decl.Body}
+		ast.Inspect(fi.Decl.Body, func(nd ast.Node) bool {
+			if fl, ok := nd.(*ast.FuncLit); ok {
+				bodies = append(bodies, fl.Body)
+			}
+			return true
+		})
+		n := 0
+		for _, body := range bodies {
+			g := w.funcCFG(info, body)
+			for _, blk := range g.Blocks {
+				for i, nd := range blk.Nodes {
+					as, ok := nd.(*ast.AssignStmt)
+					if !ok || len(as.Rhs) != 1 || len(as.Lhs) < 2 {
+						continue
+					}
+					call, ok := unparen(as.Rhs[0]).(*ast.CallExpr)
+					if !ok {
+						continue
+					}
+					errID, ok := unparen(as.Lhs[len(as.Lhs)-1]).(*ast.Ident)
+					if !ok || errID.Name == "_" || !isErrorType(info.TypeOf(errID)) {
+						continue
+					}
+					errObj := info.ObjectOf(errID)
+					for _, l := range as.Lhs[:len(as.Lhs)-1] {
+						vid, ok := unparen(l).(*ast.Ident)
+						if !ok || vid.Name == "_" {
+							continue
+						}
+						vObj := info.ObjectOf(vid)
+						if vObj == nil {
+							continue
+						}
+						switch vObj.Type().Underlying().(type) {
+						case *types.Interface, *types.Pointer, *types.Map:
+						default:
+							continue
+						}
+						n++
+						inst := fmt.Sprintf("%s:=%s#%d", vid.Name, types.ExprString(call.Fun), n)
+						if at, what := derefBeforeCheck(info, g, blk, i+1, errObj, vObj); what != "" {
+							r.Fail(VViolation, rule, fi.Key, inst, w.Pos(at), fmt.Sprintf("%s is %s on a path where %s may be non-nil: a failed call returns a nil %s, and the goroutine panics", vid.Name, what, errID.Name, vid.Name))
+						} else {
+							r.OK(rule, fi.Key, inst, w.Pos(as.Pos()), fmt.Sprintf("%s is dereferenced only where %s was found nil (or not at all)", vid.Name, errID.Name), true)
+						}
+					}
+				}
+			}
+		}
+	}
+}
+
+// derefBeforeCheck walks forward from (start, idx) while err may be non-nil.
+func derefBeforeCheck(info *types.Info, g *cfg.CFG, start *cfg.Block, idx int, errObj, vObj types.Object) (token.Pos, string) {
+	type item struct {
+		b *cfg.Block
+		i int
+	}
+	seen := map[*cfg.Block]bool{}
+	work := []item{{start, idx}}
+	// establishes(cond, branch): taking this branch of cond shows err == nil or v != nil
+	var establishes func(cond ast.Expr, branch bool) bool
+	establishes = func(cond ast.Expr, branch bool) bool {
+		switch c := unparen(cond).(type) {
+		case *ast.UnaryExpr:
+			if c.Op == token.NOT {
+				return establishes(c.X, !branch)
+			}
+		case *ast.BinaryExpr:
+			switch c.Op {
+			case token.LAND:
+				if branch {
+					return establishes(c.X, true) || establishes(c.Y, true)
+				}
+			case token.LOR:
+				if !branch {
+					return establishes(c.X, false) || establishes(c.Y, false)
+				}
+			case token.EQL, token.NEQ:
+				var other ast.Expr
+				var obj types.Object
+				if id, ok := unparen(c.X).(*ast.Ident); ok && (info.Uses[id] == errObj || info.Uses[id] == vObj) {
+					obj, other = info.Uses[id], c.Y
+				} else if id, ok := unparen(c.Y).(*ast.Ident); ok && (info.Uses[id] == errObj || info.Uses[id] == vObj) {
+					obj, other = info.Uses[id], c.X
+				}
+				if oid, ok := unparen(other).(*ast.Ident); !ok || oid.Name != "nil" || obj == nil {
+					return false
+				}
+				isNilOnBranch := (c.Op == token.EQL) == branch
+				if obj == errObj {
+					return isNilOnBranch
+				}
+				return !isNilOnBranch
+			}
+		}
+		return false
+	}
+	for len(work) > 0 {
+		it := work[len(work)-1]
+		work = work[:len(work)-1]
+		stop := false
+		for i := it.i; i < len(it.b.Nodes) && !stop; i++ {
+			nd := it.b.Nodes[i]
+			var at token.Pos
+			what := ""
+			ast.Inspect(nd, func(m ast.Node) bool {
+				if what != "" {
+					return false
+				}
+				switch x := m.(type) {
+				case *ast.FuncLit:
+					return false
+				case *ast.SelectorExpr:
+					if id, ok := unparen(x.X).(*ast.Ident); ok && info.Uses[id] == vObj {
+						at, what = x.Pos(), "used as the receiver of ."+x.Sel.Name
+					}
+				case *ast.IndexExpr:
+					if id, ok := unparen(x.X).(*ast.Ident); ok && info.Uses[id] == vObj {
+						if _, isMap := vObj.Type().Underlying().(*types.Map); !isMap {
+							at, what = x.Pos(), "indexed"
+						}
+					}
+				case *ast.StarExpr:
+					if id, ok := unparen(x.X).(*ast.Ident); ok && info.Uses[id] == vObj {
+						at, what = x.Pos(), "dereferenced"
+					}
+				}
+				return true
+			})
+			if what != "" {
+				return at, what
+			}
+			if as, ok := nd.(*ast.AssignStmt); ok {
+				for _, l := range as.Lhs {
+					if id, ok := unparen(l).(*ast.Ident); ok && (info.ObjectOf(id) == vObj || info.ObjectOf(id) == errObj) {
+						stop = true // a new value, or a new error: this pair is over
+					}
+				}
+			}
+		}
+		if stop {
+			continue
+		}
+		// the branch condition, if this block ends in one
+		var cond ast.Expr
+		if len(it.b.Succs) == 2 && len(it.b.Nodes) > 0 {
+			if e, ok := it.b.Nodes[len(it.b.Nodes)-1].(ast.Expr); ok {
+				cond = e
+			}
+		}
+		for si, s := range it.b.Succs {
+			if cond != nil && establishes(cond, si == 0) {
+				continue
+			}
+			if !seen[s] {
+				seen[s] = true
+				work = append(work, item{s, 0})
+			}
+		}
+	}
+	return token.NoPos, ""
+}
